@@ -16,9 +16,23 @@ def cases(tier, seed):
     exhaustive_n = len(out)
     nrand = 3000 if tier == "quick" else 60000
     leaves = LEAVES + [('assign',), ('goto', 'return'), ('label', 'c'), ('goto', 'c')]
+    leaves2 = leaves + [('ifs', ('goto', x), ('goto', y)) for x in "ab" for y in "ab"]
     for i in range(nrand):
-        out.append(("r", G.random_body(rng, 3, rng.randint(1, 40 if i % 4 == 0 else 9), leaves)))
-    return out, exhaustive_n, maxn
+        out.append(("r", G.random_body(rng, 3, rng.randint(1, 40 if i % 4 == 0 else 9), leaves if i % 3 else leaves2)))
+    # several functions using the same label names: a label is visible in its own function only
+    small = [b for n in range(0, 3) for b in G.enum_bodies(n, 1, LEAVES[:4] + [('ifs', ('goto', 'a'), ('goto', 'b'))], with_else=False)]
+    multi = [[f, g] for f in small for g in small]
+    for i in range(nrand // 10):
+        multi.append([G.random_body(rng, 2, rng.randint(0, 6), leaves2) for _ in range(rng.randint(2, 4))])
+    return out, exhaustive_n, maxn, multi
+
+
+def program_multi(bodies):
+    s = ""
+    for i, b in enumerate(bodies):
+        name = "main" if i == len(bodies) - 1 else "f%d" % i
+        s += "fn %s() -> i32\n{\n\tvar r: i32 = 0;\n%s\treturn: r\n}\n" % (name, G.render(b))
+    return s
 
 
 def run(tier):
@@ -27,9 +41,11 @@ def run(tier):
     if not ck.builds():
         ck.violation("tie-broken:build", "model or harness does not build", "see log")
         return ck.finish()
-    bodies, nex, maxn = cases(tier, ck.seed)
+    bodies, nex, maxn, multi = cases(tier, ck.seed)
     ck.log("cases: %d (exhaustive part %d, <=%d statements)" % (len(bodies), nex, maxn))
     srcs = [("%s%d" % (k, i), G.program(b)) for i, (k, b) in enumerate(bodies)]
+    srcs += [("m%d" % i, program_multi(bs)) for i, bs in enumerate(multi)]
+    ck.log("programs of several functions: %d" % len(multi))
     impl = C.run_harness("front", srcs, ck.work)
     items = []
     for cid, _ in srcs:
@@ -64,14 +80,16 @@ def run(tier):
             ck.violation("wrong-verdict", "implementation reports %s, the specification (later in same/enclosing block) requires %s" % (real, mm["spec"]),
                          "source:\n%s\nparsed shape: %s\nreal codes: %s\nspec codes: %s\nmodel codes: %s\nreplay: pvh front <file with this source>" % (src, f[1], real, mm["spec"], mm["model"]))
             mism += 1
-        elif mm["model"] != real:
+        elif mm["model"] != real and not cid.startswith("m"):
+            # (programs of several erroneous functions: resolver.rs sorts the combined diagnostics by source
+            # location, which the model - it has no locations - does not reproduce; the multisets were compared above)
             mism += 1
             ck.violation("tie-broken:correspondence-order", "model and implementation list different codes/orders (model %s, real %s) though the verdict agrees" % (mm["model"], real), src)
     if not proof_ok:
         ck.violation("tie-broken:proof", "Props/C04.v no longer checks", getattr(ck, "proof_output", "")[-2000:])
     ck.coverage.update(
         evaluations=len(srcs), distinct_nontrivial=len(distinct),
-        rule="all bodies with <=%d statements over {label a/b, goto a/b, if-goto a/b, block, if/else block}, depth<=3 (exhaustive: %d) plus %d random bodies up to 40 statements; non-trivial = rejected body, distinct by parsed shape" % (maxn, nex, len(srcs) - nex),
+        rule="all bodies with <=%d statements over {label a/b, goto a/b, if-goto a/b, block, if/else block}, depth<=3 (exhaustive: %d) plus %d random bodies up to 40 statements (a third with brace-less if/else of two gotos) and programs of 2-4 functions sharing label names (all pairs of bodies of <=2 statements, and random ones); non-trivial = rejected body, distinct by parsed shape" % (maxn, nex, len(srcs) - nex),
         exhaustive_part=nex, verdict_distribution=dict(dist.most_common(12)), mismatches=mism,
         samples=[dict(source=srcs[i][1], impl=impl.get(srcs[i][0], ["?"])[0], model=model.get(srcs[i][0])) for i in (nex // 2, nex + 1, len(srcs) - 1)])
     ck.assumptions += ["the statement shape fed to the model is the real parser's output, serialised by harness/src/shape.rs",
